@@ -1,7 +1,172 @@
-//! C11 - placeholder, replaced below.
-use crate::model::Analysis;
-use crate::oracle::{Aux, Tally, Violation};
+//! C11 - stream parsing is independent of TCP segmentation (HTTP, ONC-RPC over TCP).
+//!
+//! Purely differential: the property relates segmentations to each other. For a judged flow
+//! the same byte stream is delivered to a second node twice - whole in one segment, and as
+//! "signature prefix, then one byte per segment" - which gives: answered?, the trigger byte b*
+//! and the reply bytes R*. The flow's own composition must agree with both.
 
-pub fn check(_a: &Analysis, _aux: &mut Aux, _t: &mut Tally) -> Vec<Violation> {
-    Vec::new()
+use crate::apps::http;
+use crate::apps::sig::{self, Decision};
+use crate::apps::App;
+use crate::model::Analysis;
+use crate::oracle::{aux_stream, Aux, Tally, Verdict, Violation};
+
+fn norm(app: App, r: &[u8]) -> Vec<u8> {
+    if app == App::Http {
+        http::mask_date(r)
+    } else {
+        r.to_vec()
+    }
+}
+
+pub fn check(a: &Analysis, aux: &mut Aux, t: &mut Tally) -> Vec<Violation> {
+    let mut v = Vec::new();
+    if aux.samples == 0 {
+        return v;
+    }
+    let sigs = sig::signatures();
+    let cfg = &a.hist.config;
+    let mut done = 0;
+    let streams = a.tcp_streams();
+    // deterministic rotation so that not always the first flows of a run are sampled
+    let n = streams.len().max(1);
+    let startk = (aux.pick as usize) % n;
+    for q in 0..streams.len() {
+        if done >= aux.samples {
+            break;
+        }
+        let st = &streams[(startk + q) % n];
+        if st.dirty || st.segs.is_empty() || st.cookie.is_none() || st.stream.is_empty() {
+            continue;
+        }
+        let (app, siglen) = match sig::decide(&sigs, &st.stream, false) {
+            Decision::Match { sig, at } if sigs[sig].app == App::Http || sigs[sig].name == "RPC:TCP" => (sigs[sig].app, at),
+            _ => continue,
+        };
+        let first = &a.steps[st.segs[0].si];
+        let eth = match &first.req.eth {
+            Some(e) => e.clone(),
+            None => continue,
+        };
+        // the judged prefix: up to 700 bytes (keeps the byte-wise baseline affordable)
+        let lim = st.stream.len().min(700);
+        // only whole segments of the flow are compared
+        let mut segs_in: Vec<(usize, &Option<Vec<u8>>)> = Vec::new();
+        for sg in &st.segs {
+            if sg.off + sg.len <= lim {
+                segs_in.push((sg.off + sg.len, &sg.reply_app));
+            }
+        }
+        if segs_in.is_empty() {
+            continue;
+        }
+        let lim = segs_in.last().unwrap().0;
+        let stream = &st.stream[..lim];
+        let cookie = st.cookie.unwrap();
+        let clock = first.clock;
+        done += 1;
+        // baseline A: one segment
+        let ra = match aux_stream(aux, cfg, clock, &st.flow, &eth.src, &eth.dst, cookie, stream, &[]) {
+            Some(r) => r,
+            None => {
+                t.any("baseline-not-executable");
+                continue;
+            }
+        };
+        let a_app = ra.last().and_then(|x| x.1.clone()).unwrap_or_default();
+        // baseline B: signature prefix, then byte by byte
+        let cuts: Vec<usize> = (siglen.min(lim)..lim).collect();
+        let rb = match aux_stream(aux, cfg, clock, &st.flow, &eth.src, &eth.dst, cookie, stream, &cuts) {
+            Some(r) => r,
+            None => {
+                t.any("baseline-not-executable");
+                continue;
+            }
+        };
+        let trig_b = rb.iter().find(|x| x.1.as_ref().map(|p| !p.is_empty()).unwrap_or(false));
+        let (bstar, r_b) = match trig_b {
+            Some((end, Some(p))) => (Some(*end), p.clone()),
+            _ => (None, Vec::new()),
+        };
+        let proto = if app == App::Http { "http" } else { "rpc" };
+        let cut_in_sig = st.segs[0].len < siglen;
+        let mut bad = |rule: &str, key: String, step: usize, detail: String| {
+            v.push(Violation {
+                prop: "C11",
+                rule: rule.into(),
+                key,
+                step,
+                detail,
+            });
+        };
+        // the two baselines must agree with each other
+        let a_answered = !a_app.is_empty();
+        if a_answered != bstar.is_some() {
+            bad(
+                "baselines-disagree",
+                format!("baselines-answered:{}", proto),
+                first.idx,
+                format!("the {}-byte {} stream is {} when sent in one segment but {} when sent byte by byte after the signature", lim, proto, if a_answered { "answered" } else { "not answered" }, if bstar.is_some() { "answered" } else { "not answered" }),
+            );
+            continue;
+        }
+        if a_answered && norm(app, &a_app) != norm(app, &r_b) {
+            bad("baselines-disagree", format!("baselines-content:{}", proto), first.idx, format!("reply content differs between the one-segment and the byte-wise delivery of the same {} stream", proto));
+            continue;
+        }
+        // the flow's own composition
+        let own_trig = segs_in.iter().position(|x| x.1.as_ref().map(|p| !p.is_empty()).unwrap_or(false));
+        t.judged(
+            if bstar.is_some() { Verdict::Reply } else { Verdict::Silent },
+            format!(
+                "{}|segs{}|cutinsig{}|{}",
+                proto,
+                segs_in.len().min(6),
+                cut_in_sig as u8,
+                match bstar {
+                    Some(b) if b == lim => "trigger-at-end",
+                    Some(_) => "trigger-inside",
+                    None => "never",
+                }
+            ),
+        );
+        if cut_in_sig {
+            t.probe("cut-inside-signature");
+        }
+        if segs_in.len() == lim {
+            t.probe("byte-wise-composition");
+        }
+        match bstar {
+            None => {
+                if let Some(k) = own_trig {
+                    bad("answered", format!("answered-only-when-segmented:{}", proto), a.steps[st.segs[k].si].idx, format!("segment {} of the flow drew a reply although the same stream is never answered in the baselines", k));
+                }
+            }
+            Some(b) => {
+                // segment containing stream byte b-1
+                let want = segs_in.iter().position(|x| x.0 >= b).unwrap();
+                match own_trig {
+                    None => bad(
+                        "unanswered",
+                        if cut_in_sig { format!("cut-inside-signature:{}", proto) } else { format!("unanswered-when-segmented:{}", proto) },
+                        a.steps[st.segs[want].si].idx,
+                        format!("the {} request completes at stream byte {} (segment {}) but this composition ({} segments, first {} bytes{}) was never answered", proto, b, want, segs_in.len(), st.segs[0].len, if cut_in_sig { ", cut inside the signature" } else { "" }),
+                    ),
+                    Some(k) if k != want => bad(
+                        "trigger",
+                        format!("trigger-moved:{}:{}", proto, if k < want { "early" } else { "late" }),
+                        a.steps[st.segs[k].si].idx,
+                        format!("reply carried by segment {} (ends at byte {}), the request completes at byte {} in segment {}", k, segs_in[k].0, b, want),
+                    ),
+                    Some(k) => {
+                        let own = segs_in[k].1.as_ref().unwrap();
+                        if norm(app, own) != norm(app, &a_app) {
+                            bad("content", format!("content-depends-on-segmentation:{}", proto), a.steps[st.segs[k].si].idx, "reply content differs from the one-segment delivery of the same stream".into());
+                        }
+                    }
+                }
+            }
+        }
+    }
+    v
 }
